@@ -26,6 +26,8 @@ one() { # one <slot> <kind> <patch>
   slot="$1"; kind="$2"; p="$3"; b="$(basename "$p" .patch)"; prop="${b%%-*}"; repo="$scratch/repo$slot"
   if ! patch -s -p1 -d "$repo" < "$p"; then echo "SELFTEST-BROKEN $b: patch does not apply"; return; fi
   out="$(VERIF_DIR="$snap" VERIF_REPO="$repo" "$snap/bin/bklverif" check "$prop" quick 2>&1)"; rc=$?
+  # exit 2 = the tool could not run (a transient failure under load): try again, twice
+  for again in 1 2; do [ $rc -eq 2 ] || break; sleep 5; out="$(VERIF_DIR="$snap" VERIF_REPO="$repo" "$snap/bin/bklverif" check "$prop" quick 2>&1)"; rc=$?; done
   patch -s -R -p1 -d "$repo" < "$p"
   if [ "$kind" = mutants ]; then
     if [ $rc -eq 1 ] && echo "$out" | grep -q '^VIOLATION'; then echo "ok   caught  $b  ($(echo "$out" | grep -c '^VIOLATION') obligations)";
